@@ -110,6 +110,8 @@ static std::string ReadCapture() {
   return s;
 }
 
+void InitCapture() { SetupCapture(); }
+
 RunResult RunNinja(vfs::Disk* d, const RunConfig& cfg, const std::vector<int>& choice_prefix) {
   SetupCapture();
   RunResult res;
